@@ -8,8 +8,7 @@ example/expression/constant_propagation.py does.
 
 Judged with the concrete interpreter on original vs rewritten graph, from 8 states consistent with
 init_infos (every register X holds an arbitrary value and X_init the same value; 8 different memory
-contents): same ordered events (memory writes that change memory, call operator applications with
-their argument values), same exit destination, same sequence of executed blocks, same final value
+contents): same ordered memory writes (those that change memory), same exit destination, same sequence of executed blocks, same final value
 of every register of the vocabulary.
 
 Buckets name the root cause found by substitution: memory-read-propagated-as-constant when the failure
@@ -103,14 +102,14 @@ def judge(graph, stats=None, info=None):
         stats["assignblks-rewritten"] += nrw
     states = gg.make_states(8, init_suffix="_init")
     r = gg.compare_runs(ircfg, work, head, states=states, mode="sequence", regs=REGS, same_path=True, stats=stats,
-                        word="propagated")
+                        word="propagated", calls=False)
     if r:
         kind = r[0].split(":")[0]
 
         def still_fails(**kw):
             w, e = run_propag(lifter, ircfg, head, **kw)
             return e is not None or gg.compare_runs(ircfg, w, head, states=states, mode="sequence", regs=REGS,
-                                                    same_path=True, word="propagated") is not None
+                                                    same_path=True, word="propagated", calls=False) is not None
         # root cause diagnosis by substitution
         if not still_fails(nomem=True):
             bucket = "memory-read-propagated-as-constant:" + kind
@@ -129,7 +128,7 @@ class C40(Check):
             "stack, register-based and absolute cells; irgen's parallel-assignment hazards; <= 12 blocks; x86_32 "
             "model-call lifter). propagate_cst_expr with init_infos = arch.regs.regs_init on a copy; original and "
             "rewritten graph executed by the concrete interpreter from 8 states with X_init = X and 8 memory "
-            "contents; events, exit, block path and all vocabulary registers compared. Non-trivial: at least one "
+            "contents; memory writes, exit, block path and all vocabulary registers compared. Non-trivial: at least one "
             "AssignBlock was rewritten; distinct by serialised graph.")
     assumptions = ["operators without evaluation rule (call_func_*) are pure keyed hashes",
                    "a memory write storing the value the cell already holds is not an observable event",
